@@ -360,6 +360,7 @@ namespace c14
         void start(bool boxed_)
         {
             Tracked::reset(flav().c_str());
+            Throwing::disarm();
             boxed = boxed_;
             m.clear();
             next = 100;
@@ -456,6 +457,11 @@ namespace c14
                         printf("    -> injected fault: construction #%d of kind %d threw\n", c, k);
                     trace += k == Throwing::VALUE ? "!value-ctor-threw" : k == Throwing::COPY ? "!copy-ctor-threw" : "!move-ctor-threw";
                     return true;
+                }
+                catch (...)
+                {
+                    Throwing::disarm(); // a monitor failure passes through: do not leave the fault armed for the next case
+                    throw;
                 }
                 Throwing::disarm();
                 return false;
